@@ -300,6 +300,13 @@ func (d *lmtpDelivery) BodyNonAtomic(ctx context.Context, sc module.StatusCollec
 
 	rcptIndx := 0
 	err = d.conn.LMTPData(ctx, header, r, func(rcpt string, err *smtp.SMTPError) {
+		// Statuses are returned in the order of RCPT TO commands. The
+		// address reported by the SMTP client is the one that was sent to
+		// the server (may be converted to the ASCII form), use the one our
+		// caller knows.
+		if rcptIndx < len(d.rcpts) {
+			rcpt = d.rcpts[rcptIndx]
+		}
 		if err == nil {
 			sc.SetStatus(rcpt, nil)
 		} else {
